@@ -143,7 +143,7 @@ _S_CMT_EOL = st.sampled_from(['\n', '\n  ', '\n '])
 _S_WS_INLINE = st.sampled_from(WS_INLINE)
 _S_PRE_WS = st.sampled_from([' ', '\n', '  ', ' \n '])
 _S_PAR = st.sampled_from(PAR_WS)
-_S_VERBTEXT = st.text(alphabet='ab \\%$&~_^#', max_size=5)
+_S_VERBTEXT = st.text(alphabet='ab \\%$&~_^#{}[]|!', max_size=6)
 _S_VERBDELIM = st.sampled_from([('{', '}'), ('|', '|'), ('[', ']'), ('!', '!')])
 _S_INT = st.integers(min_value=0, max_value=99)
 
@@ -401,8 +401,18 @@ def _norm_slots(item_slots, sigslots, sig):
             if o == c:
                 t = t.replace(o, '')
             else:
-                # keep nesting balanced for bracket-like delimiters
-                t = t.replace(o, '').replace(c, '')
+                # bracket-like delimiters nest: keep the text balanced (drop a closer that has
+                # no opener, close what is still open at the end)
+                depth, kept = 0, []
+                for ch in t:
+                    if ch == o:
+                        depth += 1
+                    elif ch == c:
+                        if depth == 0:
+                            continue
+                        depth -= 1
+                    kept.append(ch)
+                t = ''.join(kept) + c * depth
             content = [o, c, t]
         out.append([form, pre, content])
     # an absent slot followed (after optional whitespace) by its trigger char would be
@@ -632,13 +642,19 @@ def _fix_adjacency_core(items, sig, in_bracket):
                     fc = None   # decided when the next item arrives
                 if fc and fc in trig:
                     out.append(['group', []])
-        if prev is not None and prev[0] == 'space' and len(out) >= 2 and out[-2][0] == 'macro':
-            trig = _has_trailing_absent(out[-2], sig, after_space=True)
-            if trig and k not in ('par', 'comment') and \
-                    ((in_bracket if isinstance(in_bracket, str) else '[') if k == 'bgroup'
-                     else _first_char([it])) in trig:
-                # "\item [" : the space does not protect; insert {} before the space
-                out.insert(len(out) - 1, ['group', []])
+        if prev is not None and prev[0] in ('space', 'comment') and k not in ('par', 'comment',
+                                                                              'space'):
+            # "\item [", "\item%c<nl>[": blanks and comments do not protect an absent trailing
+            # optional argument from a following trigger character (LaTeX reads it as the
+            # argument); insert {} directly after the macro
+            j = len(out) - 1
+            while j >= 0 and out[j][0] in ('space', 'comment'):
+                j -= 1
+            if j >= 0 and out[j][0] == 'macro':
+                trig = _has_trailing_absent(out[j], sig, after_space=True)
+                if trig and ((in_bracket if isinstance(in_bracket, str) else '[')
+                             if k == 'bgroup' else _first_char([it])) in trig:
+                    out.insert(j + 1, ['group', []])
         # ligature-forming pairs only as explicit specials: separate char runs that would
         # fuse with a neighbouring specials item
         if k == 'specials' and prev is not None and prev[0] == 'specials':
@@ -835,7 +851,7 @@ def _slot_structure(sl, sg, bracket, par_special=True):
             o, c = sg['x'][0], sg['x'][1]
         return ['group', o, c, expected_structure(content, (o, c), par_special)]
     if form == 'verb':
-        return ['group', content[0], content[1], _merge_chars([['chars', _nows(content[2])]])]
+        return ['group', content[0], content[1], [['vchars', content[2]]]]
     raise ValueError(form)
 
 
@@ -871,9 +887,9 @@ def expected_structure(items, bracket=None, par_special=True):
             typ = 'inline' if it[1] in ('$', '\\(') else 'display'
             out.append(['math', it[1], it[2], typ, expected_structure(it[3], None, par_special)])
         elif k == 'verb':
-            out.append(['macro', 'verb', [['chars', _nows(it[2])]]])
+            out.append(['macro', 'verb', [['vchars', it[2]]]])
         elif k == 'verbatimenv':
-            out.append(['env', 'verbatim', [['chars', _nows(it[1])]], []])
+            out.append(['env', 'verbatim', [['vchars', it[1]]], []])
         else:
             raise ValueError(it)
     return _merge_chars(out)
